@@ -47,10 +47,12 @@ class C07(MotionMonitor):
                (3, "hostile-values-free-e", mk(hv=True, rel=True, inch=True, egrid=False, g92e_retracted=True, p_inside=0.5)),
                (2, "hostile-values-firmware", mk(hv=True, fw=True, rel=True, inch=True)),
                (2, "plain", mk(rel=True, inch=True, arcs=True, at=True, retmove=True)),
-               (1, "plain-g92e-retracted", mk(g92e_retracted=True, inch=True))]
+               (1, "plain-g92e-retracted", mk(g92e_retracted=True, inch=True)),
+               (1.5, "relative-extrusion", mk(rel=True, inch=True, g90e=True, g92e_retracted=True, p_inside=0.5))]
 
     def settings_for(self, rnd, feats):
         s = MotionMonitor.settings_for(self, rnd, feats)
+        s["g90e"] = bool(feats.get("g90e"))
         ext = dict(DEFAULT_EXT)
         if rnd.random() < 0.5:
             ext.update({"M900": "merge", "M220": rnd.choice(["merge", "last", "first"])})
@@ -173,6 +175,15 @@ class C07(MotionMonitor):
                 out.append(viol(tr, r, "retraction-pair-incomplete", "%r" % (gen,)))
                 return out
             unit = r["B_before"]["unit"]
+            if not r["B_before"]["abs_e"]:
+                # relative extrusion: the G1 word is an offset; together with the G92 before it the coordinate must end where
+                # the file's coordinate is (retraction: after the command, recovery: before the command)
+                stats["c07_pair_values_relative"] += 1
+                end = r["B_after"]["e"] if r["open_after"] else r["B_before"]["e"]
+                if not close((e92 + e1) * unit, end) or (r["open_after"] and e1 >= 0) or (not r["open_after"] and e1 <= 0):
+                    out.append(viol(tr, r, "relative-pair-values", "%r: G92 value plus offset must end at the file's E %r mm (unit %r), "
+                                    "retraction negative / recovery positive" % (gen, end, unit)))
+                return out
             if r["open_after"]:
                 # retraction executed inside a region: from the file's E before the command to the file's E after it
                 if not close(e1 * unit, r["B_after"]["e"]) or not close(e92 * unit, r["B_before"]["e"]):
